@@ -110,7 +110,8 @@ def run_download(prior, sum_mode, choices, data_script=None):
             rsps.add_callback(responses.HEAD, URL, callback=head_cb)
             try:
                 with core.time_limit(5):
-                    download_file(URL, path)
+                    # the target given as a Path, or (large-body sweep) as a string
+                    download_file(URL, str(path) if len(GOOD) > 10000 else path)
                 out['outcome'] = 'returned'
             except core.CaseTimeout:
                 out['outcome'] = 'raised_other:no-termination'
